@@ -83,7 +83,9 @@ theorem buildQuotation_generated (ex : Bool) (fp content : Str) (sm : Except Err
 /-! ### cache identity text -/
 
 /-- a plain string followed by a quote determines the string -/
-theorem plain_split (a b r1 r2 : Str) (ha : Plain a) (hb : Plain b) (h : a ++ '\'' :: r1 = b ++ '\'' :: r2) :
+theorem plain_noquote {s : Str} (h : Plain s) : '\'' ∉ s := fun hm => (h _ hm).1 rfl
+
+theorem plain_split (a b r1 r2 : Str) (ha : '\'' ∉ a) (hb : '\'' ∉ b) (h : a ++ '\'' :: r1 = b ++ '\'' :: r2) :
     a = b ∧ r1 = r2 := by
   induction a generalizing b with
   | nil =>
@@ -118,7 +120,7 @@ theorem go_injective (keys vs ws : List Str) (hl : vs.length = keys.length) (hl'
         simp only [List.zip_cons_cons, pyStrDict.go, pyReprPlain, List.cons_append, List.append_assoc, List.cons.injEq, true_and] at h
         have h' := List.append_cancel_left h
         simp only [List.nil_append, List.cons.injEq, true_and] at h'
-        have := plain_split v w _ _ (hv v (by simp)) (hw w (by simp)) h'
+        have := plain_split v w _ _ (plain_noquote (hv v (by simp))) (plain_noquote (hw w (by simp))) h'
         rw [this.1, ih vs' ws' (by simpa using hl) (by simpa using hl') (fun x hx => hv x (by simp [hx])) (fun x hx => hw x (by simp [hx])) this.2]
 
 /-- two identities over the same keys with plain values have the same `str(dict)` text only if the values agree -/
@@ -137,7 +139,7 @@ theorem pyStrDict_injective (keys vs ws : List Str) (hl : vs.length = keys.lengt
         simp only [List.zip_cons_cons, pyStrDict, pyReprPlain, List.cons_append, List.append_assoc, List.cons.injEq, true_and] at h
         have h' := List.append_cancel_left h
         simp only [List.nil_append, List.cons.injEq, true_and] at h'
-        have := plain_split v w _ _ (hv v (by simp)) (hw w (by simp)) h'
+        have := plain_split v w _ _ (plain_noquote (hv v (by simp))) (plain_noquote (hw w (by simp))) h'
         rw [this.1, go_injective ks vs' ws' (by simpa using hl) (by simpa using hl') (fun x hx => hv x (by simp [hx])) (fun x hx => hw x (by simp [hx])) this.2]
 
 end Tranp.Shape
